@@ -61,7 +61,16 @@ def main():
             rec = {"op": ev["op"], "obj": ev["obj"], "inp": ev["inp"], "ctor": ev["ctor"], "outcome": "ok", "yields": []}
             try:
                 with project.quiet():
-                    if ev["op"] == "new":
+                    if ev["op"] == "new_bad":
+                        text = inp["variants"][0]
+                        elements = re.findall(r"\{[^\}]+\}", text)
+                        if ev["ctor"] == "graph_without_fragname":
+                            g = read_cgsmiles(elements[0])
+                            del g.nodes[0]["fragname"]
+                            MoleculeResolver.from_graph(".".join(elements[1:]), g, last_all_atom=inp["all_atom"])
+                        else:
+                            MoleculeResolver.from_fragment_dicts(text, shared[ev["inp"]], last_all_atom=inp["all_atom"])
+                    elif ev["op"] == "new":
                         text = inp["variants"][(ev["obj"] + ev.get("variant", 0)) % len(inp["variants"])]
                         elements = re.findall(r"\{[^\}]+\}", text)
                         if ev["ctor"] == "from_string":
